@@ -36,7 +36,9 @@ var c09Shapes = []c09Shape{
 	{func(x string) string { return "SELECT * FROM " + x }, 1, "select-star"},
 	{func(x string) string { return "select key, rpc_address from " + x + " where key = 'local'" }, 1, "select-cols-where"},
 	{func(x string) string { return "SELECT count(*) FROM " + x + ";" }, 1, "select-count"},
-	{func(x string) string { return "  SeLeCt\n\tpeer AS p ,  data_center\r\nFROM\n" + x + "  LIMIT 10 ALLOW FILTERING" }, 1, "select-spelled"},
+	{func(x string) string {
+		return "  SeLeCt\n\tpeer AS p ,  data_center\r\nFROM\n" + x + "  LIMIT 10 ALLOW FILTERING"
+	}, 1, "select-spelled"},
 	{func(x string) string { return "SELECT JSON * FROM " + x }, 1, "select-json"},
 	{func(x string) string { return "SELECT DISTINCT key FROM " + x }, 1, "select-distinct"},
 	{func(x string) string { return "SELECT \"from\", 'from' FROM " + x }, 1, "select-quoted-from"},
